@@ -1355,3 +1355,34 @@ func (m *Model) indexSummary(fn *ssa.Function) (int, bool) {
 	}
 	return 0, false
 }
+
+// guardedLifting: is the instruction guarded (guard holds for its block), or — lifting through the
+// static module callers of its function, so that a statement moved into a helper keeps its guard at
+// the helper's call sites — guarded on every call chain? Returns the unguarded position otherwise.
+func (m *Model) guardedLifting(in ssa.Instruction, guard func(b *ssa.BasicBlock) bool, depth int) (bool, string) {
+	if guard(in.Block()) {
+		return true, ""
+	}
+	fn := in.Parent()
+	node := m.CG.Nodes[fn]
+	if node == nil || depth > 3 {
+		return false, m.InstrPos(in)
+	}
+	n := 0
+	for _, e := range node.In {
+		if e.Site == nil || !m.InModule(e.Caller.Func) || isUserPkg(fnPkgPath(e.Caller.Func)) {
+			continue
+		}
+		if e.Site.Common().StaticCallee() != fn {
+			return false, m.InstrPos(in) // reachable through a dynamic call: callers are not enumerable
+		}
+		n++
+		if ok, pos := m.guardedLifting(e.Site, guard, depth+1); !ok {
+			return false, pos
+		}
+	}
+	if n == 0 {
+		return false, m.InstrPos(in)
+	}
+	return true, ""
+}
